@@ -134,6 +134,8 @@ func GenConfig(t *rapid.T, o GenOpts) sim.Config {
 	} else {
 		cfg.TargetEthTxTimeout = rapid.SampledFrom([]uint64{60000, 150000, 86400000}).Draw(t, "ethtimeout")
 	}
+	// a short signed-signer-set window lets BeginBlocker prune observed signer sets within a history
+	cfg.SignerSetWindow = rapid.SampledFrom([]uint64{1, 3, 10000, 10000}).Draw(t, "sswindow")
 	prices := []string{"0.001", "1", "3", "1500.5", "250"}
 	for d := 0; d < nd; d++ {
 		cfg.Prices = append(cfg.Prices, sim.PriceCfg{Name: denomNames[d], Value: pick(t, "price", prices)})
